@@ -36,12 +36,13 @@ type c06ClientRec struct {
 	bytes     []byte
 	wantInner []byte // reconstructed inner message when processed as a well-formed retry
 	seq       int    // sender sequence number used (-1: not sealed with the main sender)
+	changed   bool   // an extension referenced through ech_outer_extensions differs from the first flight
 }
 
 func TestC06(t *testing.T) {
 	rec := ev.Get("C06")
-	rec.Rule("state machine over a Conn with an accepted first hello. Operations: client sends (well-formed retried hello sealed at the next sequence number, 11 ill-formed variants, plain hello, CCS, other handshake, application data, alert), backend queues (HRR, ServerHello, CCS, application data, other handshake) and flushes its pending bytes in drawn pieces, backend reads one record. Reference machine from the property: a ClientHello consumed while exactly one HRR has been completely written, no retry was processed and no client application data was seen is a retry (expected reconstructed inner, or the class of its defect, alert+close); every other record is forwarded unchanged. distinct = operation-kind sequence; non-trivial = history contains an HRR and a later ClientHello")
-	rec.Mandatory("hrr_after_backend_appdata", "double_hrr", "ccs_between_hrr_and_hello", "hello_without_hrr", "hello_after_appdata", "hrr_split_across_writes", "retry_ok", "third_hello_forwarded",
+	rec.Rule("state machine over a Conn with an accepted first hello. Operations: client sends (well-formed retried hello sealed at the next sequence number - its extensions, including those referenced through ech_outer_extensions, may differ from the first flight's -, 11 ill-formed variants, plain hello, CCS, other handshake, application data, alert), backend queues (HRR, ServerHello, CCS, application data, other handshake) and flushes its pending bytes in drawn pieces, backend reads one record. Reference machine from the property: a ClientHello consumed while exactly one HRR has been completely written, no retry was processed and no client application data was seen is a retry (expected reconstructed inner, or the class of its defect, alert+close); every other record is forwarded unchanged. distinct = operation-kind sequence; non-trivial = history contains an HRR and a later ClientHello")
+	rec.Mandatory("hrr_after_backend_appdata", "double_hrr", "ccs_between_hrr_and_hello", "hello_without_hrr", "hello_after_appdata", "hrr_split_across_writes", "retry_ok", "retry_ok_referenced_ext_changed", "third_hello_forwarded",
 		"retry:ch_no_ech", "retry:ch_other_id", "retry:ch_other_suite", "retry:ch_enc_nonempty", "retry:ch_fresh_ctx", "retry:ch_seq_skip", "retry:ch_sni_changed", "retry:ch_alpn_changed", "retry:ch_no_inner_ext", "retry:ch_outer_sni_changed")
 	rapid.Check(t, func(t *rapid.T) {
 		sc := drawSealed(t, false)
@@ -69,14 +70,37 @@ func TestC06(t *testing.T) {
 		var alertWant []byte
 
 		mkHello := func(kind string) c06ClientRec {
+			changedCompressed := false
 			in2 := tp.Inner.Clone()
 			in2.Random = hello.GenBytes(t, "random2", 32)
 			out2 := tp.Outer.Clone()
 			out2.Random = hello.GenBytes(t, "orandom2", 32)
 			runStart, runLen := tp.RunStart, tp.RunLen
+			// as after a real HelloRetryRequest (key_share, cookie, ...), extensions may differ
+			// between the two flights - those compressed into ech_outer_extensions change in the
+			// second outer hello and the inner hello must be rebuilt from that one
+			if rapid.Bool().Draw(t, "exts_change") {
+				for i := range in2.Exts {
+					ty := in2.Exts[i].Type
+					if ty == hello.ExtSNI || ty == hello.ExtALPN || ty == hello.ExtECH || ty == hello.ExtSupportedVersions || ty == hello.ExtPSK || ty == hello.ExtOuterExtensions {
+						continue
+					}
+					if rapid.IntRange(0, 2).Draw(t, "ext_changes") != 0 {
+						continue
+					}
+					nd := hello.GenBytes(t, "ext2_data", rapid.IntRange(0, 40).Draw(t, "ext2_len"))
+					in2.Exts[i].Data = nd
+					if i >= runStart && i < runStart+runLen {
+						if j := out2.Find(ty); j >= 0 {
+							out2.Exts[j].Data = nd
+							changedCompressed = true
+						}
+					}
+				}
+			}
 			sealer := sc.Sealer
 			first := false
-			r := c06ClientRec{kind: kind, seq: -1}
+			r := c06ClientRec{kind: kind, seq: -1, changed: changedCompressed}
 			switch kind {
 			case "ch_plain", "ch_no_ech":
 				i := out2.Find(hello.ExtECH)
@@ -227,6 +251,9 @@ func TestC06(t *testing.T) {
 					}
 					recipientSeq++
 					cl = append(cl, "retry_ok")
+					if cr.changed {
+						cl = append(cl, "retry_ok_referenced_ext_changed")
+					}
 				} else {
 					if e == nil {
 						ev.Violation(t, "C06", rp, "ill-formed retried hello (%s) was forwarded (%d bytes) instead of %s", cr.kind, len(got), wantClass)
